@@ -73,7 +73,7 @@ Definition oracle17 (c : case17) : bool :=
           let r := ref3 s d in
           agree r (select funnel17 obs) && (negb (contents_ok d && top_decodable d) || agree r obs)
       | KNop =>
-          ran_all (Nat.eqb 0) (select funnel17 obs) && (negb (contents_ok d && top_decodable d) || ran_all (Nat.eqb 0) obs)
+          ran_all (Nat.eqb 0) (select funnel17 obs) && (negb (top_decodable d) || ran_all (Nat.eqb 0) obs)
       | KNil =>
           ran_all (Nat.eqb 0) (select funnel17 obs) && (negb (top_decodable d) || ran_all (Nat.eqb 0) obs)
       end
